@@ -17,6 +17,7 @@ def describe(ck):
     ck.rule("R10b", "update_gaps only adds to gap counts, and what it adds is a sum of new-gap vector entries; make_seq's vectors hold 0 or +1 increments")
     ck.rule("R10c", "make_seq applies one unmodified vector to every member of a group: update_gaps(len, gaps of the same member, vector) for all nsip members")
     ck.rule("R10d", "do_align builds the member list of the merged node as all members of a followed by all members of b, nsip[c] = nsip[a] + nsip[b]")
+    ck.rule("R10e", "make_seq's two new-gap vectors never overlap and every carrier of gap counts on the way to msa_seq.gaps is at least int wide")
     ck.not_decided += ["correct distribution of the new gap vector over existing gap slots (index arithmetic in update_gaps)"]
 
 
@@ -154,6 +155,114 @@ def _vectors(prog, M):
             if a.k == "DeclRefExpr":
                 out[a.d["did"]] = a.d["name"]
     return out
+
+
+INT_WIDTH = {"char": 1, "signed char": 1, "unsigned char": 1, "short": 2, "unsigned short": 2, "int": 4, "unsigned int": 4,
+             "long": 8, "unsigned long": 8, "long long": 8, "unsigned long long": 8, "_Bool": 1}
+
+
+def _width(ty):
+    t = ty.replace("const ", "").replace("volatile ", "").replace("restrict", "").strip()
+    return INT_WIDTH.get(t)
+
+
+def _origins(M, did, allocs, depth=0):
+    """where a local pointer of make_seq can point: [('own', key)] for an allocation made into it / a local array,
+    [('carve', base origin key, offset node or None)] when it is derived from another pointer"""
+    out = []
+    for tgt, size, call in allocs:
+        if tgt.k == "DeclRefExpr" and tgt.d["did"] == did:
+            out.append(("own", "alloc@%d" % call.line, None))
+    for rhs, node in local_defs(M, did):
+        if rhs is None:
+            continue
+        r = rhs.strip(casts=True)
+        if r.cv == 0 or "NULL" in "".join(r.mac) or r.k == "CallExpr" or r.d.get("name") == "tmpp":
+            continue
+        off = None
+        if r.k == "BinaryOperator" and r.d["op"] == "+":
+            r, off = r.kids[0].strip(casts=True), r.kids[1]
+        if r.k == "UnaryOperator" and r.d["op"] == "&" and r.kids[0].strip().k == "ArraySubscriptExpr":
+            off = r.kids[0].strip().kids[1] if off is None else None
+            r = r.kids[0].strip().kids[0].strip(casts=True)
+        if r.k != "DeclRefExpr" or depth > 2:
+            raise AnalysisBroken("R10e: origin of a new-gap vector not understood: %s" % rhs.text()[:50])
+        if "[" in r.ty:                                   # a local array decays: its own object
+            out.append(("carve" if off is not None else "own", "array:%s" % r.d["name"], off))
+            continue
+        for kind, key, o2 in _origins(M, r.d["did"], allocs, depth + 1):
+            if o2 is not None and off is not None:
+                raise AnalysisBroken("R10e: nested pointer arithmetic in the origin of a new-gap vector")
+            out.append(("carve", key, off if off is not None else o2))
+    return out
+
+
+def r10e(ck, prog):
+    """the two new-gap vectors of make_seq are two separate arrays of path[0]+1 full-width counters: they never overlap
+    (separately allocated, or carved from one block at least path[0]+1 elements apart), and neither they nor the addend
+    in update_gaps are narrower than the int gap counts they are added to"""
+    from ..affine import alloc_sites, single_defs
+    M, U = prog.fn("make_seq"), prog.fn("update_gaps")
+    vecs = _vectors(prog, M)
+    if len(vecs) != 2:
+        raise AnalysisBroken("R10e slot: make_seq passes %d distinct vectors to update_gaps (expected 2)" % len(vecs))
+    allocs = list(alloc_sites(M))
+    subst = single_defs(M)
+    (da, na), (db, nb) = sorted(vecs.items(), key=lambda kv: kv[1])
+    oa, ob = _origins(M, da, allocs), _origins(M, db, allocs)
+    if not oa or not ob:
+        raise AnalysisBroken("R10e: no allocation found for the new-gap vectors %s / %s" % (na, nb))
+    where = site(prog, M, "%s,%s" % (na, nb))
+    ck.inst("R10e", where, "make_seq: %s comes from %s, %s from %s" % (na, [(k, key, o.text() if o is not None else None) for k, key, o in oa], nb,
+                                                                       [(k, key, o.text() if o is not None else None) for k, key, o in ob]), prog.config)
+    for ka, keya, offa in oa:
+        for kb, keyb, offb in ob:
+            if keya != keyb:
+                continue
+            la = lin(offa, subst) if offa is not None else Lin(0)
+            lb = lin(offb, subst) if offb is not None else Lin(0)
+            if la is None or lb is None:
+                raise AnalysisBroken("R10e: offsets of %s / %s inside %s are not affine" % (na, nb, keya))
+            # need |lb - la| >= path[0] + 1
+            ok = False
+            for d in (lb.add(la, -1), la.add(lb, -1)):
+                rest = d.add(Lin(1, {"path[0]": 1}), -1)
+                if rest.is_const() and rest.c >= 0:
+                    ok = True
+                elif not rest.is_const() and all(v >= 0 for v in rest.t.values()) and rest.c >= 0 and set(rest.t) <= {"path[0]"}:
+                    ok = True
+            if not ok:
+                d = lb.add(la, -1)
+                if not (d.is_const() or set(d.t) <= {"path[0]"}):
+                    raise AnalysisBroken("R10e: the distance between %s and %s inside %s (%s) is not comparable with path[0]+1" % (na, nb, keya, d))
+                ck.violation("R10e", "R10e/make_seq/overlap", where,
+                             "%s and %s both point into %s, %s elements apart, but each holds path[0]+1 counters: the last counter of one "
+                             "is the first of the other, so gaps counted for one group are also inserted into the other" % (na, nb, keya, d), prog.config)
+    # full-width counters
+    gty = prog.field("msa_seq", "gaps")
+    n = 0
+    checks = []
+    for did, name in vecs.items():
+        ty = next((r.ty for r in M.body.find("DeclRefExpr") if r.d.get("did") == did), "")
+        checks.append(("make_seq vector %s" % name, ty.rstrip("*").strip(), M))
+    for prm in U.params:
+        if prm["ty"].endswith("*"):
+            checks.append(("update_gaps parameter %s" % prm["name"], prm["ty"].rstrip("*").strip(), U))
+    for a in U.body.find("CompoundAssignOperator"):
+        l = a.kids[0].strip()
+        if l.k == "DeclRefExpr" and any(x.k == "ArraySubscriptExpr" for x in a.kids[1].walk()):
+            checks.append(("update_gaps accumulator %s" % l.d["name"], l.ty, U))
+    for what, ty, F in checks:
+        w = _width(ty)
+        n += 1
+        ck.inst("R10e", site(prog, F, what), "%s has element type %s" % (what, ty), prog.config)
+        if w is None:
+            raise AnalysisBroken("R10e: width of type %s (%s) unknown" % (ty, what))
+        if w < 4:
+            ck.violation("R10e", "R10e/%s/narrow/%s" % (F.name, what.split()[-1]), site(prog, F, what),
+                         "%s is %s (%d bytes) but counts inserted columns of a merge, which is bounded only by the int path length: "
+                         "a gap run of 2^%d columns wraps and the row loses its gaps" % (what, ty, w, 8 * w - 1), prog.config)
+    ck.floor("R10e", n, 4, "gap-count carriers")
 
 
 def r10c(ck, prog):
@@ -325,6 +434,7 @@ def run(ck, progs):
         ck.attempt(r10b, ck, prog)
         ck.attempt(r10c, ck, prog)
         ck.attempt(r10d, ck, prog)
+        ck.attempt(r10e, ck, prog)
     return ("Effect summary of create_msa_tree on msa (which paths under msa->sequences are written while aligning); "
             "all uses of msa_seq.gaps in the functions reachable from create_msa_tree; form of every store in update_gaps "
             "and into make_seq's vectors; argument agreement, loop coverage and vector immutability of the update_gaps "
